@@ -116,8 +116,14 @@ def make_bm(log=None, wname="W", uname="U", aname="A"):
 class StepHooks(Hooks):
     """Shape-only tensor operations are the identity; `g.dim()` is decided by the scenario."""
 
-    def __init__(self, g_ndim=2):
+    def __init__(self, g_ndim=2, grad_mode=True):
         self.g_ndim = g_ndim
+        self.grad_mode = grad_mode
+
+    def external_call(self, interp, dotted, args, kwargs, node, fi):
+        if dotted == "torch.is_grad_enabled":
+            return self.grad_mode
+        return NotImplemented
 
     def tensor_method(self, interp, recv, name, args, kwargs, node, fi):
         if name == "dim":
